@@ -339,8 +339,8 @@ theorem decorateOne_sepWf (w w' : World) (key : String) (f : FnId) (inh : Bool)
 /-! ### the namespace pass and the class statement -/
 
 theorem optDecorate_sepWf (w w' : World) (key : String) (o : Option FnId)
-    (base : Bool × List Nat × List Nat × List Nat)
-    (hd : (match o with | some f => decorateOne w key f true base | none => .ok w) = .ok w')
+    (base : FnId → Bool × List Nat × List Nat × List Nat)
+    (hd : (match o with | some f => decorateOne w key f true (base f) | none => .ok w) = .ok w')
     (h : SepWf w) : SepWf w' := by
   cases o with
   | none => cases hd; exact h
@@ -361,8 +361,9 @@ theorem decorateMember_sepWf (w w' : World) (bases : List ClsId) (key : String) 
       split at hd
       · cases hd
       · next w2 h2 =>
-        exact optDecorate_sepWf _ _ _ _ _ hd
-          (optDecorate_sepWf _ _ _ _ _ h2 (optDecorate_sepWf _ _ _ _ _ h1 h))
+        exact optDecorate_sepWf _ _ _ d (fun f => collectBasesProp _ bases key 2 f) hd
+          (optDecorate_sepWf _ _ _ s (fun f => collectBasesProp _ bases key 1 f) h2
+            (optDecorate_sepWf _ _ _ g (fun f => collectBasesProp _ bases key 0 f) h1 h))
 
 theorem nsPass_sepWf (bases : List ClsId) (ns : List (String × Member)) (w w' : World)
     (hd : ns.foldlM (fun w (p : String × Member) => decorateMember w bases p.1 p.2) w = .ok w')
